@@ -116,6 +116,14 @@ const (
 	ModeCharDevice = fs.ModeCharDevice
 	ModeDevice     = fs.ModeDevice
 	ModeSymlink    = fs.ModeSymlink
+	ModeAppend     = fs.ModeAppend
+	ModeExclusive  = fs.ModeExclusive
+	ModeTemporary  = fs.ModeTemporary
+	ModeSocket     = fs.ModeSocket
+	ModeSetuid     = fs.ModeSetuid
+	ModeSetgid     = fs.ModeSetgid
+	ModeSticky     = fs.ModeSticky
+	ModeIrregular  = fs.ModeIrregular
 	ModeType       = fs.ModeType
 )
 
